@@ -103,7 +103,7 @@ def config(rng):
            'ip=' + rng.choice(['v4', 'v4', 'v6']),
            'databytes=' + rng.choice(['0', '0', '200', '1000'])]
     plan = [rng.choice(['ok', 'ok', 'ok', 'exit:1', 'exit:10', 'exit:11', 'exit:31', 'exit:40', 'exit:41', 'exit:100', 'die:a:0:sig', 'die:a:0:53',
-                        'die:b:0:1', 'die:m:5:sig', 'die:m:150:2', 'ce:1', 'ce:0', 'die:e:1:sig'])
+                        'die:b:0:1', 'die:m:5:sig', 'die:m:150:2', 'ce:1', 'ce:0', 'die:e:1:sig', 'ns', 'nh'])
             for _ in range(6)]
     cfg.append('qq=' + ','.join(plan))
     return ';'.join(cfg)
